@@ -69,6 +69,9 @@ pub struct ConcParams {
     pub stall_roles: Vec<RoleName>,
     pub hash_modes: Vec<HashMode>,
     pub tiny_queue_pct: u64,
+    /// percentage of upserts that carry no value (TTL-only / remove-TTL / weight-only). Valid only
+    /// while the key is present: the harness catches the documented refusal otherwise.
+    pub valueless_pct: u64,
 }
 
 impl ConcParams {
@@ -90,6 +93,7 @@ impl ConcParams {
             stall_roles: vec![RoleName::Worker, RoleName::Sweeper, RoleName::Consumer],
             hash_modes: vec![HashMode::Identity, HashMode::Mixed, HashMode::Constant],
             tiny_queue_pct: 50,
+            valueless_pct: 0,
         }
     }
 }
@@ -214,8 +218,16 @@ pub fn conc(rng: &mut Rng, property: &str, stratum: &str, p: &ConcParams) -> Sce
                     // In a concurrent scenario nobody can know that the key is still readable when the
                     // call is made (eviction, sweep, another thread's delete), and an upsert without a
                     // value on an absent key violates the documented precondition: always give a value.
-                    let val = Some(token(t, i, key));
-                    let weight = if p.upsert_may_raise {
+                    let mut val = Some(token(t, i, key));
+                    if rng.chance(p.valueless_pct, 100) {
+                        // keep the charged weight unchanged: restate it, or only touch the TTL of a key
+                        // whose weight function ignores TTLs (remove-TTL subtracts the surcharge, so it
+                        // is paired with the explicit weight)
+                        val = None;
+                    }
+                    let weight = if val.is_none() {
+                        Some(ws[key as usize])
+                    } else if p.upsert_may_raise {
                         if rng.chance(1, 2) { Some(rng.range_i(1, cfg.weight + 5)) } else { None }
                     } else if rng.chance(1, 2) {
                         // restate the key's fixed weight explicitly (the weight function gives the same)
